@@ -443,7 +443,12 @@ def parseLine(raw, eols=(CRLF, LF, CR ), kind="event line"):
 
     Raise error if eol not found before MAX_LINE_SIZE
     """
+    skip = False  # True means prior line ended with CR at end of raw so may be split CRLF
     while True:
+        if skip and raw:  # LF that follows CR of split CRLF is part of that prior eol
+            if raw[0:1] == LF:
+                del raw[0:1]
+            skip = False
         index = -1  # not found index == -1
         for e in eols:  # find earliest eol in raw, first in eols wins a tie
             i = raw.find(e)
@@ -463,6 +468,8 @@ def parseLine(raw, eols=(CRLF, LF, CR ), kind="event line"):
 
         line = raw[:index]
         index += len(eol)  # strip eol
+        if eol == CR and index == len(raw) and CRLF in eols:
+            skip = True  # CR at end of raw may be first half of split CRLF
         del raw[:index] # remove used bytes
         (yield line)
     return
